@@ -454,6 +454,11 @@ impl LexerSpec {
         assert!(self.num_extra_lexemes == 0);
         self.num_extra_lexemes = extra_lexemes.len();
         let lex0 = self.lexemes.len();
+        // The slicer computed the token set of each of these regexes in Unicode mode;
+        // don't inherit byte mode from a grammar with allow_invalid_utf8 (where /.{1,10}/
+        // means 10 bytes, not 10 characters).
+        self.regex_builder.unicode(true);
+        self.regex_builder.utf8(true);
         for (idx, added) in extra_lexemes.iter().enumerate() {
             self.add_lexeme_spec(LexemeSpec {
                 name: format!("$extra_{idx}"),
